@@ -112,6 +112,12 @@ package stack
 //@   ensures [uniformIndentation C01] old(s.state) != looking && s.state != done && s.state != looking ==> sameslice(s.prefix, old(s.prefix))
 //@   ensures [growOnly C01 C10] len(s.Goroutines) >= old(len(s.Goroutines)) && len(s.Goroutines) <= old(len(s.Goroutines)) + 1 && forall i :: 0 <= i && i < old(len(s.Goroutines)) ==> s.Goroutines[i] == old(s.Goroutines[i])
 
+//@   ensures [functionLineAddsOneFrameToTheCurrentGoroutine C01 C08] (old(s.state) == gotRoutineHeader || old(s.state) == gotFileFunc || old(s.state) == gotRaceOperationHeader || old(s.state) == gotRaceOperationFile) && (s.state == gotFunc || s.state == gotRaceOperationFunc) ==> len(s.Goroutines) == old(len(s.Goroutines)) && len(s.Goroutines[len(s.Goroutines)-1].Stack.Calls) == old(len(s.Goroutines[len(s.Goroutines)-1].Stack.Calls)) + 1 && (forall k :: 0 <= k && k < old(len(s.Goroutines[len(s.Goroutines)-1].Stack.Calls)) ==> s.Goroutines[len(s.Goroutines)-1].Stack.Calls[k].Line == old(s.Goroutines[len(s.Goroutines)-1].Stack.Calls[k].Line) && s.Goroutines[len(s.Goroutines)-1].Stack.Calls[k].RemoteSrcPath == old(s.Goroutines[len(s.Goroutines)-1].Stack.Calls[k].RemoteSrcPath) && s.Goroutines[len(s.Goroutines)-1].Stack.Calls[k].Func.Complete == old(s.Goroutines[len(s.Goroutines)-1].Stack.Calls[k].Func.Complete) && sameslice(s.Goroutines[len(s.Goroutines)-1].Stack.Calls[k].Args.Values, old(s.Goroutines[len(s.Goroutines)-1].Stack.Calls[k].Args.Values)))
+//@   ensures [fileLineGoesToTheLastFrame C01 C08] (old(s.state) == gotFunc || old(s.state) == gotRaceOperationFunc) && result0 ==> len(s.Goroutines) == old(len(s.Goroutines)) && len(s.Goroutines[len(s.Goroutines)-1].Stack.Calls) == old(len(s.Goroutines[len(s.Goroutines)-1].Stack.Calls)) && s.Goroutines[len(s.Goroutines)-1].Stack.Calls[len(s.Goroutines[len(s.Goroutines)-1].Stack.Calls)-1].RemoteSrcPath != "" && (forall k :: 0 <= k && k < len(s.Goroutines[len(s.Goroutines)-1].Stack.Calls) - 1 ==> s.Goroutines[len(s.Goroutines)-1].Stack.Calls[k].Line == old(s.Goroutines[len(s.Goroutines)-1].Stack.Calls[k].Line) && s.Goroutines[len(s.Goroutines)-1].Stack.Calls[k].RemoteSrcPath == old(s.Goroutines[len(s.Goroutines)-1].Stack.Calls[k].RemoteSrcPath))
+//@   ensures [unavailableStackIsOneMarkerFrame C01] old(s.state) == gotRoutineHeader && s.state == gotUnavail ==> len(s.Goroutines[len(s.Goroutines)-1].Stack.Calls) == 1 && s.Goroutines[len(s.Goroutines)-1].Stack.Calls[0].RemoteSrcPath == "<unavailable>"
+//@   ensures [createdByIsOneFrameOfTheCurrentGoroutine C01] (old(s.state) == gotFileFunc || old(s.state) == gotUnavail) && s.state == gotCreated ==> len(s.Goroutines[len(s.Goroutines)-1].CreatedBy.Calls) == 1 && len(s.Goroutines[len(s.Goroutines)-1].Stack.Calls) == old(len(s.Goroutines[len(s.Goroutines)-1].Stack.Calls))
+//@   ensures [elidedMarkerSetsTheFlag C01] old(s.state) == gotFileFunc && s.state == gotFileFunc && result0 ==> s.Goroutines[len(s.Goroutines)-1].Stack.Elided && len(s.Goroutines[len(s.Goroutines)-1].Stack.Calls) == old(len(s.Goroutines[len(s.Goroutines)-1].Stack.Calls))
+//@   ensures [raceCreationFrameGoesToTheSelectedGoroutine C08] (old(s.state) == gotRaceGoroutineHeader || old(s.state) == gotRaceGoroutineFile) && s.state == gotRaceGoroutineFunc ==> s.goroutineIndex == old(s.goroutineIndex) && len(s.Goroutines[s.goroutineIndex].CreatedBy.Calls) == old(len(s.Goroutines[s.goroutineIndex].CreatedBy.Calls)) + 1 && (forall j :: 0 <= j && j < len(s.Goroutines) && s.Goroutines[j] != s.Goroutines[s.goroutineIndex] ==> len(s.Goroutines[j].CreatedBy.Calls) == old(len(s.Goroutines[j].CreatedBy.Calls)))
 //@   ensures [raceErrorChangesNoState C08] (old(s.state) == betweenRaceOperations || old(s.state) == betweenRaceGoroutines) && result1 != nil && s.state != done ==> s.state == old(s.state) && s.goroutineIndex == old(s.goroutineIndex) && len(s.Goroutines) == old(len(s.Goroutines)) && forall j :: 0 <= j && j < len(s.Goroutines) ==> s.Goroutines[j].State == old(s.Goroutines[j].State)
 //@   assert after-store Snapshot.Goroutines#2: [headerFields C01] len(s.Goroutines) >= 1 && s.Goroutines[len(s.Goroutines)-1].ID == decval(match[2], len(match[2])) && s.Goroutines[len(s.Goroutines)-1].SleepMin == sleep && s.Goroutines[len(s.Goroutines)-1].SleepMax == sleep && (s.Goroutines[len(s.Goroutines)-1].Locked <==> locked) && (s.Goroutines[len(s.Goroutines)-1].First <==> len(s.Goroutines) == 1) && s.Goroutines[len(s.Goroutines)-1].RaceAddr == 0 && len(s.Goroutines[len(s.Goroutines)-1].Stack.Calls) == 0 && len(s.Goroutines[len(s.Goroutines)-1].State) == len(items[0]) && (forall k :: 0 <= k && k < len(items[0]) ==> s.Goroutines[len(s.Goroutines)-1].State[k] == items[0][k])
 //@   assert after-store Snapshot.Goroutines#3: [raceFirstOperation C08] len(s.Goroutines) == 1 && s.Goroutines[0].ID == decval(match[3], len(match[3])) && s.Goroutines[0].First && (s.Goroutines[0].RaceWrite <==> w) && s.Goroutines[0].RaceAddr == addr
@@ -131,11 +137,17 @@ package stack
 //@   requires c != nil
 //@   modifies Func.* at &c.Func; Call.ImportPath at c; Args.Values, Args.Processed, Args.Elided at &c.Args
 //@   ensures [errorImpliesFound C07] result1 != nil ==> result0
+//@   assert after-call Init#1: [symbolIsFirstGroup C01 C08] arg0 == &c.Func && len(arg1) == len(match[1]) && (forall k :: 0 <= k && k < len(arg1) ==> arg1[k] == match[1][k])
+//@   assert after-call parseArgs#1: [argumentsAreSecondGroup C01 C08] sameslice(arg0, match[2])
+//@   ensures [argumentsStored C01 C08] result0 && result1 == nil ==> c.ImportPath == c.Func.ImportPath
 
 //@ func parseFile
 //@   requires c != nil
 //@   modifies Call.Line, Call.RemoteSrcPath, Call.SrcName, Call.DirSrc, Call.Location, Call.ImportPath at c
 //@   ensures [errorImpliesFound C07] result1 != nil ==> result0
+//@   assert after-call init#1: [fileAndLineAreTheGroups C01 C08] arg0 == c && len(arg1) == len(match[1]) && (forall k :: 0 <= k && k < len(arg1) ==> arg1[k] == match[1][k]) && arg2 == decval(match[2], len(match[2]))
+//@   ensures [fileLineStored C01 C08] result0 && result1 == nil ==> c.RemoteSrcPath != "" && 0 <= c.Line
+//@   ensures [notFoundChangesNothing C01 C08] !result0 ==> c.Line == old(c.Line) && c.RemoteSrcPath == old(c.RemoteSrcPath)
 
 // The package part of a symbol ends at the first dot after the last slash (or
 // at the first dot when there is no slash); -2 stands for "slash but no dot".
